@@ -88,7 +88,7 @@ func genC20Plan(rt *rapid.T) kPlan {
 		p.Callers = append(p.Callers, ops)
 	}
 	var unhealed, kills bool
-	p.Events, unhealed, kills = genEvents(rt, p.Topo, g, []string{"move", "move", "move", "migrate", "migrate", "migrate", "migrate", "loop", "kill", "health"}, 4, 3000)
+	p.Events, unhealed, kills = genEvents(rt, p.Topo, g, []string{"move", "move", "move", "migrate", "migrate", "migrate", "migrate", "migrate", "loop", "kill", "health"}, 5, 3000)
 	for ci := range p.Callers {
 		for oi := range p.Callers[ci] {
 			op := &p.Callers[ci][oi]
